@@ -372,7 +372,7 @@ func TestGen(t *testing.T) {
 
 func genVis(t *testing.T, c *vlib.Collector, id *int, seed uint64) {
 	r := &randx{vlib.NewRand(seed ^ 0xc0701)}
-	n := vlib.Scale(300, 4000)
+	n := vlib.Scale(200, 4000)
 	for k := 0; k < n; k++ {
 		*id++
 		m := genMesh(r, true)
@@ -573,7 +573,7 @@ func addScopeCase(t *testing.T, c *vlib.Collector, id int, w World, cfg string, 
 
 func genScope(t *testing.T, c *vlib.Collector, id *int, seed uint64) {
 	r := &randx{vlib.NewRand(seed ^ 0xc0703)}
-	n := vlib.Scale(800, 12000)
+	n := vlib.Scale(600, 12000)
 	for k := 0; k < n; k++ {
 		*id++
 		w := genWorld(r, k%10 == 0)
@@ -600,7 +600,7 @@ func genScope(t *testing.T, c *vlib.Collector, id *int, seed uint64) {
 
 func genPaths(t *testing.T, c *vlib.Collector, id *int, seed uint64) {
 	r := &randx{vlib.NewRand(seed ^ 0xc0704)}
-	n := vlib.Scale(300, 6000)
+	n := vlib.Scale(200, 6000)
 	for k := 0; k < n; k++ {
 		*id++
 		w := genWorld(r, false)
@@ -692,7 +692,7 @@ var drHostPool = []string{"a.com", "b.a.com", "*.a.com", "*.b.a.com", "*.com", "
 
 func genDR(t *testing.T, c *vlib.Collector, id *int, seed uint64) {
 	r := &randx{vlib.NewRand(seed ^ 0xc0705)}
-	n := vlib.Scale(300, 5000)
+	n := vlib.Scale(200, 5000)
 	for k := 0; k < n; k++ {
 		*id++
 		w := World{M: Mesh{Root: "rootns", Unified: true, PickBest: true}}
